@@ -33,3 +33,45 @@ PLANS["C05"] = dict(
              "keys drawn in proportion to their weights": "proved that choices is called with aligned keys/weights of the current distribution and k=N; proportionality itself is the assumed library contract",
              "entries usable wherever a joint degree sequence is accepted": "proved as rows_are_tuples (hashable tuples); exercised downstream by the stand-in"},
     not_decided=["the probability law of random.choices (assumed library contract)"])
+
+_GEN_ASSUME = ["flatten-repeat idiom (chain.from_iterable(starmap(repeat, enumerate(col)))) yields vertex v exactly jds[v][k] times: assumed library contract, exercised by the stand-in",
+               "iteration_utilities.grouper(xs, n) yields consecutive n-slices", "random.shuffle(xs) replaces xs by an arbitrary permutation of itself",
+               "M-COUNT: a permutation preserves the number of occurrences of every vertex (meta-lemma)"]
+PLANS["C01"] = dict(
+    level="other", bounded="c01",
+    modules=[dict(name="gen_fast", skip=r"\.(name|par1|par2)$"), dict(name="motifs")],
+    technique="deductive verification of the real GCMAlgorithmFast.random_clustered_graph (inductive loop invariants with ghost maps for motif -> topology / stub position / column offset), the three motif generators and the id generator, VCs from the AST in z3/cvc5; network, custom-motif and dispatch paths by bounded shuffle-exhaustive run-time contracts (labelled stand-in)",
+    level_text="Proved for all inputs and all shuffle outcomes on the real fast generator: every emitted block is the build callback of its topology applied to one full-size slice of that topology's permuted stub list, the stub lists have the column sums as lengths, the joint degree sequence is carried through; the motif generators return exactly the documented edge sets. The network and custom-motif generators and the factory path are covered by the bounded stand-in only, hence level `other` rather than `proof`.",
+    level_note="Trusted: vf VC generator, z3/cvc5; assumed library contracts (flatten-repeat, grouper, shuffle = arbitrary permutation, list.extend, combinations, tee/zip); A-CALLBACK. Bounded part: N <= 4/5, <= 3 columns, <= 6 stubs per column, every shuffle outcome up to the cap.",
+    explanation="PROVED (all inputs, all RNG outcomes): fast generator block structure (blk_lo/blk_hi/edge: block m = build_k(slice of the shuffled stub list at rec_pos[m] of length size_k)), full groups only (hint full_group, inv pos/posmod), stub list lengths = column sums (lens), jds carried through (jds_carried), loop0 = each list is replaced by a permutation of itself (done/todo); clique/cycle/diamond motif generators and infinite_sequence. "
+                "BOUNDED (stand-in, not proof): exact motif counts and per-vertex slot counts for the fast, network and custom-motif generators, direct and via load_gcm_algorithm, over every shuffle outcome of small inputs.",
+    clauses={"each motif = build callback applied to size_k drawn stubs": "proved for the fast generator (inv edge/blk_lo/blk_hi + hint full_group); bounded for network/custom",
+             "exactly colsum_k/size_k instances per topology; each vertex occupies exactly jds[v][k] slots": "fast: follows from the proved tiling of the permuted stub list + M-COUNT; checked directly (bounded) on all three generators",
+             "joint degree sequence carried through unchanged": "proved (ensures.jds_carried) for fast; bounded for network/custom",
+             "no vertex outside 0..N-1": "vertices are enumerate indices (assumed flatten-repeat contract); bounded check",
+             "factory / main dispatch": "bounded (class identity + same behaviour)"},
+    assumptions=_GEN_ASSUME, not_decided=[])
+PLANS["C02"] = dict(
+    level="other", bounded="c02",
+    modules=[dict(name="gen_fast")],
+    technique="deductive verification of the real fast generator's column structure (thirteen-conjunct inductive invariant with ghost maps rec_start/rec_k/rec_pos) by VCs from the AST in z3/cvc5; custom-motif and network generators by bounded shuffle-exhaustive run-time contracts (labelled stand-in)",
+    level_text="Proved for all inputs and all shuffle outcomes on the real fast generator: the three columns have equal length, motif ids are a running counter, the entries of one id form one contiguous block equal to what one callback call returned, every entry carries its topology's name. The custom-motif generator (bare edge / two-edge corner cases) and the network annotations are covered by the bounded stand-in only.",
+    level_note="Trusted: vf VC generator, z3/cvc5; assumed contracts of list.extend, [x]*n, grouper, shuffle; LightWeightEdgeList properties are trivial getters/setters (resolved to fields). Bounded part as C01.",
+    explanation="PROVED: par1/par2 (parallel columns), ids (range), blk_lo/blk_hi/edge (block content), name, chain0/chain/chainN (blocks are consecutive and exhaustive) for the fast generator; ensures.columns_parallel. BOUNDED (stand-in): the same clauses on the custom-motif generator (including a bare edge, one-edge lists, two-edge motifs, per-edge names, multi-orbit motifs) and the annotations produced by the network generator.",
+    clauses={"columns have the same length": "proved (fast: ensures.columns_parallel, inv par1/par2); bounded (custom)",
+             "entries sharing an id are exactly one callback's edges; ids distinct per instance": "proved (fast: ids, blk_lo, blk_hi, edge, chain*); bounded (custom, network)",
+             "names": "proved (fast: inv name); bounded (custom per-edge names, bare name)",
+             "every entry is a pair of vertex ids": "requires the callback to return pairs (A-CALLBACK); bounded check"},
+    assumptions=_GEN_ASSUME)
+PLANS["C03"] = dict(
+    level="other", bounded="c03",
+    modules=[dict(name="gen_fast", only=r"loop0\.|loop2\.(hint|preserve\.(edge|blk_lo|blk_hi|pos|posmod|full))|jds_carried|lens|stubs")],
+    technique="reduction by contract: the placement is proved to be the grouping of independently permuted canonical stub lists (VCs from the AST, z3/cvc5), uniformity of random.shuffle is an assumed library contract; exact placement frequencies over all shuffle outcomes as bounded stand-in",
+    level_text="A distribution is not a postcondition of one call, so the property is reduced: (i) proved: every stub list is replaced by an arbitrary permutation of itself before grouping and the emitted placement is the consecutive-slice grouping of those permuted lists (for every permutation, so no placement is unreachable); (ii) assumed: random.shuffle applies a uniform permutation independently per call; (iii) meta-lemma M-PUSH: the push-forward of independent uniform permutations under grouping is the configuration-model measure. The stand-in drives the real generators through every shuffle outcome and compares exact placement frequencies with an independent model.",
+    level_note="Trusted: vf VC generator, z3/cvc5; assumed: uniformity and independence of random.shuffle (never re-tested), M-PUSH (paper argument). Bounded part: <= 6 stubs per topology, <= 2/3 topologies, cases whose outcome space is <= the cap are compared exactly.",
+    explanation="PROVED: loop0 invariants (done: processed lists are permutations of the originals; todo: the others untouched), grouping of the shuffled lists (edge/blk/pos). ASSUMED: uniform independent shuffles. BOUNDED: exact frequency of every placement over all shuffle outcomes equals the product of per-topology configuration-model frequencies (fast, network, custom incl. multi-orbit and identical columns).",
+    clauses={"every assignment equally likely, independently per topology": "reduction proved + assumed uniform shuffle; exact frequencies on small inputs (bounded)",
+             "no placement unreachable": "proved: the permutation is arbitrary (universally quantified ghost)",
+             "none favoured by vertex order": "bounded frequencies; follows from uniformity"},
+    assumptions=_GEN_ASSUME + ["M-PUSH: push-forward of independent uniform permutations under consecutive grouping is the configuration-model measure"],
+    not_decided=["uniformity of CPython's random.shuffle itself (assumed library contract)"])
